@@ -129,8 +129,10 @@ def run(tier, seed, replay=None):
             else:
                 m = rng.choice([1, 2, 3, 5])
                 q = rng.random()
-                if q < 0.5 or not known:
+                if q < 0.3 or not known:
                     t0 = cur + 1
+                elif q < 0.5:
+                    t0 = cur + 1 + rng.choice([1, 2, 3, 7])           # all new, but after a hole of a few minutes (shorter or longer than the batch)
                 elif q < 0.8:
                     t0 = max(1, known[-1] - rng.randrange(0, m))       # partial or full overlap with the tail
                 else:
@@ -232,6 +234,32 @@ def run(tier, seed, replay=None):
         seen.add(site)
         res.violation(site, 'the store after single additions is not strictly increasing / does not equal append-or-replace semantics',
                       {'ops': ops, 'store_content': sobs[i]})
+    # the store clause decided on the implementation alone: a row with a new timestamp is appended, one with a stored timestamp replaces it
+    # (histories that contain an older unknown / zero timestamp, a batch reaching back too far, or that raised, are left to the correspondence)
+    for ops, final in zip(scases, sobs):
+        if final is None or 'store_rows' in seen:
+            continue
+        exp, skip = [], False
+        for o in ops:
+            rows = [o[1]] if o[0] == 'add' else list(o[1])
+            if not exp or rows[0][0] > exp[-1][0]:
+                exp.extend(rows); continue
+            ts = [t for t, _ in exp]
+            if o[0] == 'add':
+                if rows[0][0] in ts: exp[ts.index(rows[0][0])] = rows[0]
+                else: skip = True; break
+            else:
+                if rows[0][0] >= exp[-min(len(rows), len(exp))][0] and rows[-1][0] >= exp[-1][0] and all(t in ts or t > ts[-1] for t, _ in rows) \
+                        and ts[-min(len(rows), len(ts)):] == list(range(ts[-min(len(rows), len(ts))], ts[-1] + 1, M)):
+                    for r_ in rows:
+                        if r_[0] in ts: exp[ts.index(r_[0])] = r_
+                        else: exp.append(r_)
+                else:
+                    skip = True; break
+        if not skip and [tuple(x) for x in exp] != [tuple(x) for x in final]:
+            seen.add('store_rows')
+            res.violation('store_is_not_append_or_replace', 'after additions of new and repeated timestamps the store is not what append-or-replace gives',
+                          {'ops': ops, 'store_content': final, 'expected': exp})
     for b in sp_bad[:1]:
         res.violation('spacing', 'research.backtest spacing validation', b)
     return res.finish()
